@@ -170,4 +170,6 @@ def run(tier):
     oblig.run_conjuncts(chk, conj, 'rsa-conjunct')
     keygen_forced_bits(chk)
     chk.floor("C10 obligations", len(chk.obls), 90)
+    from .. import lints
+    lints.length_is_boolean(chk, ['src/rsa/'])
     return chk.finish()
